@@ -101,3 +101,8 @@ pub mod ntsclient {
 pub fn refid_bytes(r: crate::ReferenceId) -> [u8; 4] {
     r.to_bytes()
 }
+
+/// Pieces needed to drive a `RemoteBloomFilter` directly (C34: the filter's own checks,
+/// which `NtpSource` shadows by validating the client cookie first).
+pub use crate::packet::v5::NtpClientCookie;
+pub use crate::packet::v5::extension_fields::{ReferenceIdRequest, ReferenceIdResponse};
